@@ -42,7 +42,11 @@ G(db, st, n)  == [db |-> db, status |-> st, n |-> n, reg |-> TRUE,  mv |-> FALSE
 GX(n)         == [db |-> "in", status |-> "temp", n |-> n, reg |-> TRUE,  mv |-> TRUE]
 GU(db, st, n) == [db |-> db, status |-> st, n |-> n, reg |-> FALSE, mv |-> FALSE]
 
-\* A profile = one public entry point (x one option class when the options change what is created).
+\* A profile = one public entry point x one OPTION CLASS: the values of the options of the entry point that create the
+\* same groups (outputs and work columns).  Each class has its own group list, so that Exact (exactly the documented
+\* outputs, no work column left) is judged per option value; the option values of a class are its set-ups
+\* (SetupVariants), all executed with every fault.
+\*  entry    : the public entry point (C++ name) the profile belongs to
 \*  same     : dbin and dbout are the same object (cross-validation, single-db calculators)
 \*  hooks    : the entry point goes through ACalculator::run (faults can be injected between stages)
 \*  noerr    : the entry point returns no error code (a result structure instead)
@@ -65,13 +69,16 @@ GU(db, st, n) == [db |-> db, status |-> st, n |-> n, reg |-> FALSE, mv |-> FALSE
 \* tessellation_poisson keeping its work field when _run fails (rb without "runcols"); simbool keeping "Cover" and
 \* its outputs (rb = {}); simuPost clearing the Z roles on success (postClears).
 P(name, same, groups) ==
-  [name |-> name, same |-> same, hooks |-> TRUE, noerr |-> FALSE, groups |-> groups, unreg |-> 0, postUnreg |-> FALSE,
+  [name |-> name, entry |-> name, same |-> same, hooks |-> TRUE, noerr |-> FALSE, groups |-> groups, unreg |-> 0, postUnreg |-> FALSE,
    cmoves |-> FALSE, runUnreg |-> 0, lies |-> {}, scribbles |-> FALSE, postClears |-> FALSE, rb |-> {"perm", "temp"}]
 \* entry points outside ACalculator::run: no bookkeeping, no roll-back
 Q(name, same, groups) == [P(name, same, groups) EXCEPT !.hooks = FALSE, !.rb = {}]
 
 Est1Std1 == <<G("out", "perm", 1), G("out", "perm", 1)>>
 One      == <<G("out", "perm", 1)>>
+Two      == <<G("out", "perm", 2)>>
+\* an option class of an entry point
+O(name, entry, same, groups) == [P(name, same, groups) EXCEPT !.entry = entry]
 
 ProfilesKriging ==
   { P("kriging", FALSE, Est1Std1),
@@ -86,12 +93,19 @@ ProfilesKriging ==
     P("krigcell", FALSE, Est1Std1),
     P("krigprof", FALSE, Est1Std1),
     P("kriggam", FALSE, Est1Std1),
-    P("kriging_varz", FALSE, <<G("out", "perm", 1), G("out", "perm", 1), G("out", "perm", 1)>>),
+    O("kriging_varz", "kriging", FALSE, <<G("out", "perm", 1), G("out", "perm", 1), G("out", "perm", 1)>>),
+    O("kriging_one", "kriging", FALSE, One),                       \* a single one of flag_est / flag_std / flag_varz
+    O("kriging_2var", "kriging", FALSE, <<G("out", "perm", 2), G("out", "perm", 2)>>),
+    O("kriging_lc", "kriging", FALSE, Est1Std1),                   \* matLC with one row on a bivariate model
+    O("kriging_colcok", "kriging", FALSE, <<G("out", "perm", 2), G("out", "perm", 2)>>),
+    O("xvalid_one", "xvalid", TRUE, One),
+    O("xvalid_varz", "xvalid", TRUE, <<G("out", "perm", 1), G("out", "perm", 1), G("out", "perm", 1)>>),
     \* CalcKrigingFactors: _check clears Z in dbin and gives it to the first factor only, before any test
     \* (_rollback gives Z back to all factors); with a change of support the centring comes BEFORE the outputs
     [P("krig_factors", FALSE, <<G("out", "perm", 2), G("out", "perm", 2)>>) EXCEPT !.cmoves = TRUE, !.rb = {"perm", "temp", "croles"}],
     [P("krig_factors_cs", FALSE, <<GX(2), G("out", "perm", 2), G("out", "perm", 2)>>)
        EXCEPT !.cmoves = TRUE, !.rb = {"perm", "temp", "croles", "roles"}],
+    [O("krig_factors_one", "krigingFactors", FALSE, Two) EXCEPT !.cmoves = TRUE, !.rb = {"perm", "temp", "croles"}],
     \* CalcImage (dbin = dbout = the grid)
     P("krimage", TRUE, One),
     P("db_smoother", TRUE, One),
@@ -102,7 +116,11 @@ ProfilesKriging ==
     [P("global_kriging", FALSE, <<>>) EXCEPT !.noerr = TRUE],
     \* CalcSimpleInterpolation
     P("simple_interp", FALSE, One),
-    P("invdist_std", FALSE, Est1Std1),
+    O("invdist_std", "inverseDistance", FALSE, Est1Std1),
+    O("invdist_stdonly", "inverseDistance", FALSE, One),
+    O("nearest_neighbor_std", "nearestNeighbor", FALSE, Est1Std1),
+    O("moving_average_std", "movingAverage", FALSE, Est1Std1),
+    O("moving_median_std", "movingMedian", FALSE, Est1Std1),
     P("nearest_neighbor", FALSE, One),
     P("moving_average", FALSE, One),
     P("moving_median", FALSE, One),
@@ -135,7 +153,13 @@ ProfilesDbToDb ==
     P("migrate_multi", FALSE, <<G("out", "perm", 2)>>),
     P("migrate_locator", FALSE, One),
     P("migrate_attr", FALSE, <<G("out", "perm", 3)>>),
-    P("stats_grid", FALSE, One),
+    \* dbStatisticsOnGrid: the engine (dbStatisticsInGridTool) adds work columns to the grid during _run and
+    \* deletes them at its end: none for NUM / MINI / MAXI / CORR / PLUS / MOINS / ZERO, a count for MEAN,
+    \* a count and a sum for VAR / STDV
+    O("stats_grid", "dbStatisticsOnGrid", FALSE, One),
+    [O("stats_grid_mean", "dbStatisticsOnGrid", FALSE, One) EXCEPT !.runUnreg = 1],
+    [O("stats_grid_var", "dbStatisticsOnGrid", FALSE, One) EXCEPT !.runUnreg = 2],
+    [O("stats_grid_multi", "dbStatisticsOnGrid", FALSE, Two) EXCEPT !.runUnreg = 2],          \* two variables
     P("regression", TRUE, <<G("in", "perm", 1)>>),
     P("g2g_copy", FALSE, One),
     P("g2g_expand", FALSE, One),
@@ -143,6 +167,9 @@ ProfilesDbToDb ==
     P("g2g_interp", FALSE, One),
     \* CalcSimuPost renames with a variable count of 0: the naming convention then leaves the roles alone
     P("simupost_up", FALSE, <<G("out", "perm", 2)>>),
+    O("simupost_up1", "simuPost", FALSE, One),                     \* a single statistic
+    O("simupost_up8", "simuPost", FALSE, <<G("out", "perm", 8)>>), \* the eight statistics
+    O("simupost_match", "simuPost", FALSE, <<G("out", "perm", 4)>>), \* two variables, matching ranks, two statistics
     P("simupost_self", TRUE, <<G("in", "perm", 2)>>),
     P("simupost_demo", FALSE, <<G("out", "perm", 4)>>),
     P("simupost_layer", FALSE, <<G("out", "perm", 3)>>),
@@ -159,9 +186,16 @@ ProfilesAnam ==
     [P("normal_score", TRUE, One) EXCEPT !.cmoves = TRUE],       \* always by name: Z role assigned before the run
     P("raw_to_factor", TRUE, <<G("out", "perm", 2)>>),
     P("raw_to_factor_ranks", TRUE, <<G("out", "perm", 2)>>),
+    \* the number of outputs is the number of recovery functions of the Selectivity
     P("cond_expectation", TRUE, <<G("out", "perm", 2)>>),
-    P("uniform_cond", TRUE, <<G("out", "perm", 2)>>),
-    P("disj_kriging", TRUE, <<G("out", "perm", 2)>>) }
+    O("cond_expectation_one", "ConditionalExpectation", TRUE, One),
+    O("cond_expectation_tq", "ConditionalExpectation", TRUE, <<G("out", "perm", 8)>>),
+    O("cond_expectation_tqbm", "ConditionalExpectation", TRUE, <<G("out", "perm", 6)>>),
+    \* _uniformConditioning adds two work columns itself during _run and deletes them at its end
+    [P("uniform_cond", TRUE, <<G("out", "perm", 2)>>) EXCEPT !.runUnreg = 2],
+    [O("uniform_cond_tq", "UniformConditioning", TRUE, <<G("out", "perm", 8)>>) EXCEPT !.runUnreg = 2],
+    P("disj_kriging", TRUE, <<G("out", "perm", 2)>>),
+    O("disj_kriging_tq", "DisjunctiveKriging", TRUE, <<G("out", "perm", 8)>>) }
 
 Profiles == ProfilesKriging \cup ProfilesSimu \cup ProfilesDbToDb \cup ProfilesAnam
 
@@ -294,20 +328,21 @@ NoTempAfterSuccess == ret = "ok" => \A i \in 1..Len(made) : made[i].status = "pe
 (* Natural ways of failing offered to the conformance run, per fault point:  *)
 (* inputs that make the named stage of the real calculator fail by itself    *)
 (* (the injected faults need no input).                                      *)
-KrigLike == {"krigtest", "xvalid", "test_neigh", "simtub_cond", "kriging_extdrift", "kribayes",
+KrigLike == {"kriging_one", "kriging_2var", "kriging_lc", "kriging_colcok", "xvalid_one", "xvalid_varz", "krigtest", "xvalid", "test_neigh", "simtub_cond", "kriging_extdrift", "kribayes",
              "krigcell", "krigprof", "kriggam", "kriging_varz", "simbayes"}
 NaturalVariants(pname, f) ==
   CASE f = "check" /\ pname = "kriging" -> {"nvar_mismatch", "ndim_mismatch", "no_model", "no_neigh", "no_z", "image_neigh"}
     [] f = "check" /\ pname \in KrigLike -> {"nvar_mismatch", "ndim_mismatch", "no_model", "no_neigh", "no_z"}
     [] f = "check" /\ pname = "simtub_nc" -> {"ndim_mismatch", "no_model"}
     [] f = "check" /\ pname \in {"migrate", "regression", "normal_score", "gaussian_to_raw"} -> {"bad_name"}
-    [] f = "check" /\ pname = "migrate_locator" -> {"bad_dist_type"}
     [] f = "check" /\ pname = "migrate_attr" -> {"bad_dist_type"}
     [] f = "check" /\ pname = "anam_transform" -> {"bad_name"}
-    [] f = "check" /\ pname = "stats_grid" -> {"no_z"}
-    [] f = "check" /\ pname \in {"moving_average", "least_squares", "moving_median"} -> {"no_neigh", "ndim_mismatch"}
+    [] f = "check" /\ pname \in {"stats_grid", "stats_grid_mean", "stats_grid_var", "stats_grid_multi"} -> {"no_z"}
+    [] f = "run" /\ pname \in {"stats_grid", "stats_grid_mean", "stats_grid_var", "stats_grid_multi"} -> {"invalid_oper"}
+    [] f = "check" /\ pname \in {"moving_average", "least_squares", "moving_median", "moving_average_std", "moving_median_std"}
+         -> {"no_neigh", "ndim_mismatch"}
     [] f = "check" /\ pname \in {"simple_interp", "nearest_neighbor"} -> {"ndim_mismatch", "no_z"}
-    [] f = "check" /\ pname = "invdist_std" -> {"no_model", "no_z"}
+    [] f = "check" /\ pname \in {"invdist_std", "invdist_stdonly", "nearest_neighbor_std"} -> {"no_model", "no_z"}
     [] f = "run" /\ pname \in {"kriging", "krigtest", "kriging_varz"} -> {"block_on_points"}
     [] f = "run" /\ pname = "kriggam" -> {"sill_above_one"}
     [] f = "run" /\ pname = "krigprof" -> {"no_code"}
@@ -316,7 +351,7 @@ NaturalVariants(pname, f) ==
     [] f = "check" /\ pname = "kriging_extdrift" -> {"no_ext_out"}
     [] f = "check" /\ pname \in {"kriging_dgm", "simtub_dgm"} -> {"points_out", "no_anam", "no_support"}
     [] f = "run" /\ pname = "kriging_dgm" -> {"sill_not_one"}
-    [] f = "check" /\ pname \in {"krig_factors", "krig_factors_cs"} -> {"no_anam", "nvar_model_two", "block_no_ndisc", "no_neigh"}
+    [] f = "check" /\ pname \in {"krig_factors", "krig_factors_cs", "krig_factors_one"} -> {"no_anam", "nvar_model_two", "block_no_ndisc", "no_neigh"}
     [] f = "run" /\ pname = "krig_factors" -> {"block_on_points"}
     [] f = "check" /\ pname = "krimage" -> {"no_z", "no_model"}
     [] f = "check" /\ pname = "db_smoother" -> {"bad_type", "two_z", "no_z"}
@@ -333,25 +368,43 @@ NaturalVariants(pname, f) ==
     [] f = "run" /\ pname = "simbool" -> {"cannot_cover"}
     [] f = "check" /\ pname \in {"g2g_copy", "g2g_expand", "g2g_shrink"} -> {"no_z", "wrong_dims"}
     [] f = "check" /\ pname = "g2g_interp" -> {"no_z", "wrong_dims", "bad_tops"}
-    [] f = "check" /\ pname \in {"simupost_up", "simupost_demo", "simupost_layer"} -> {"bad_name", "no_stat", "no_upscale"}
+    [] f = "check" /\ pname \in {"simupost_up", "simupost_demo", "simupost_layer", "simupost_up1", "simupost_up8", "simupost_match"}
+         -> {"bad_name", "no_stat", "no_upscale"}
     [] f = "check" /\ pname = "simupost_self" -> {"bad_name", "no_stat"}
     [] f = "check" /\ pname = "point_to_block" -> {"ndim_mismatch"}
     [] f = "check" /\ pname = "interp_to_point" -> {"no_coord"}
     [] f = "check" /\ pname = "db_proportion" -> {"no_model", "no_z"}
     [] f = "check" /\ pname = "raw_to_factor" -> {"no_z"}
     [] f = "check" /\ pname = "raw_to_factor_ranks" -> {"bad_rank", "no_z"}
-    [] f = "check" /\ pname \in {"cond_expectation", "uniform_cond", "disj_kriging"} -> {"bad_name", "no_selectivity"}
+    [] f = "check" /\ pname \in {"cond_expectation", "uniform_cond", "disj_kriging", "cond_expectation_one", "cond_expectation_tq",
+                                 "cond_expectation_tqbm", "uniform_cond_tq", "disj_kriging_tq"} -> {"bad_name", "no_selectivity"}
+    [] f = "check" /\ pname = "migrate_locator" -> {"bad_dist_type"}
     [] OTHER -> {}
 \* input set-ups that select other code paths of the same entry point (all faults apply to them)
 SetupVariants(pname) ==
   \* "nolocator": naming convention asked not to touch the roles (flag_locator = false)
   CASE pname = "kriging" -> {"std", "moving", "nolocator"}
-    [] pname = "xvalid" -> {"std", "nolocator"}
-    [] pname = "migrate" -> {"std", "nolocator"}
+    [] pname = "xvalid" -> {"std", "nolocator", "raw"}             \* "raw": estimate and st. dev. instead of the errors
+    [] pname = "kriging_one" -> {"est", "stdev", "varz"}
+    [] pname = "xvalid_one" -> {"esterr", "estim", "stderr", "stdev"}
+    [] pname = "krig_factors_one" -> {"est", "stdev"}
+    \* migrate: point / grid to point / grid, with its filling, interpolation, ball-tree, distance options
+    [] pname = "migrate" -> {"std", "nolocator", "fill", "fill_ball", "dist2", "dmax", "g2g", "g2g_fill", "g2p", "g2p_inter", "p2p", "p2p_ball"}
+    [] pname = "stats_grid" -> {"num", "mini", "maxi", "corr", "plus", "moins", "zero", "num_radius1"}
+    [] pname = "stats_grid_mean" -> {"mean", "mean_radius1"}
+    [] pname = "stats_grid_var" -> {"var", "stdv", "stdv_radius1"}
+    [] pname = "stats_grid_multi" -> {"num", "mean", "var", "stdv"}
+    [] pname = "regression" -> {"std", "cst", "mode1"}
+    [] pname = "simple_interp" -> {"std", "expand", "dmax", "exponent1"}
+    [] pname = "least_squares" -> {"std", "order0", "order2"}
+    [] pname = "simupost_up" -> {"std", "num", "mini", "maxi"}       \* upscaling rules
+    [] pname = "simupost_up1" -> {"med", "mini", "maxi", "std", "stdp", "varp"}
+    [] pname = "point_to_block" -> {"std", "block", "size"}
+    [] pname = "cond_expectation_tq" -> {"std", "montecarlo"}
     [] pname = "kriging_extdrift" -> {"std", "expand"}     \* "expand": dbin lacks the external drift, _preprocess migrates it
     [] pname = "anam_transform" -> {"std", "by_name"}      \* "by_name": entry point designating the variable by its name
     [] pname = "gaussian_to_raw" -> {"std", "by_name"}
-    [] pname = "morpho" -> {"erosion", "dilate", "thresh", "open", "nolocator"}
+    [] pname = "morpho" -> {"erosion", "dilate", "thresh", "open", "nolocator", "negation", "close", "cc", "ccsize", "distance", "angle"}
     [] pname = "krigcell" -> {"std", "nolocator"}
     [] pname = "simbool" -> {"std", "nolocator"}
     [] pname = "db_smoother" -> {"uniform", "gaussian"}
@@ -372,7 +425,7 @@ Count(groups, db) == LET S == {i \in 1..Len(groups) : groups[i].db = db /\ group
 Emit == ret = "none" \/ PrintT(ToJson([profile |-> prof.name, fault |-> fault, proto |-> proto, ret |-> ret,
                                          clean |-> Clean, leftover |-> Leftover, bound |-> prof.name \in Bound,
                                          exact |-> (ret = "ok" => Exact), honest |-> (ret = "ok" => Honest),
-                                         hooks |-> prof.hooks, noerr |-> prof.noerr, same |-> prof.same,
+                                         hooks |-> prof.hooks, noerr |-> prof.noerr, same |-> prof.same, entry |-> prof.entry,
                                          exp_in |-> IF prof.same THEN 0 ELSE Count(prof.groups, "in"),
                                          exp_out |-> IF prof.same THEN Count(prof.groups, "in") + Count(prof.groups, "out")
                                                      ELSE Count(prof.groups, "out"),
